@@ -1,4 +1,5 @@
 import MemVerif.Lemmas.C01Coll
+import MemVerif.Model.CollRunA
 /-!
 C01 for `memory_pool_collection` over the intrusive free lists, **array operations** (`allocate_array`,
 `try_allocate_array`, `deallocate_array`) on top of `Lemmas/C01Coll.lean`.
@@ -33,9 +34,6 @@ theorem span_disjoint {a ns p len : Nat} (hlen : 0 < len) :
         have e : (k + 1 + 1) * ns = (k + 1) * ns + ns := by rw [Nat.add_mul, Nat.one_mul]
         omega
 
-/-- `l` without the elements of `E` -/
-def removeAllOf {α} [DecidableEq α] (l E : List α) : List α := l.filter (fun e => decide (e ∉ E))
-
 theorem perm_filter_mem {α} [DecidableEq α] {l E : List α} (hl : l.Nodup) (hE : E.Nodup) (hsub : ∀ e ∈ E, e ∈ l) :
     l.Perm (E ++ removeAllOf l E) := by
   unfold removeAllOf
@@ -58,12 +56,6 @@ theorem perm_filter_mem {α} [DecidableEq α] {l E : List α} (hl : l.Nodup) (hE
     exact hy.2 hx
 
 /-! ### ledger entries of an array -/
-
-/-- the `k` cell entries of an array at `a` in a bucket with nodes of `ns` bytes, requested with key `s` -/
-def arrEntries (ns a s k : Nat) : List (Nat × Nat) := (blockNodes a ns k).map fun x => (x, s)
-
-/-- the ledger without the cells of an array -/
-def removeEntries (live E : List (Nat × Nat)) : List (Nat × Nat) := removeAllOf live E
 
 theorem arrEntries_nodup (ns a s k : Nat) (hns : 0 < ns) : (arrEntries ns a s k).Nodup := by
   unfold arrEntries List.Nodup
@@ -294,5 +286,432 @@ theorem Coll.deallocateArray_inv (cfg : Cfg) {arr arrLen : Nat} {c : Coll} {live
     have := List.perm_append_comm_assoc R (listRanges l ++ Y) L'
     simpa [List.append_assoc] using this
   exact t1.trans (t3.trans t2.symm)
+
+/-! ### `allocate_array`, `try_allocate_array` -/
+
+theorem Coll.setList_setList (c : Coll) (i : Nat) (l1 l2 : AnyList) : (c.setList i l1).setList i l2 = c.setList i l2 := by
+  unfold Coll.setList
+  simp only [List.set_set]
+
+theorem Coll.nsOf_setList_self (c : Coll) {s : Nat} {l l' : AnyList} (hl : c.lists[c.listIndex s]? = some l)
+    (hns : l'.nodeSize = l.nodeSize) :
+    (((c.setList (c.listIndex s) l').lists[(c.setList (c.listIndex s) l').listIndex s]?).map AnyList.nodeSize).getD 0 = l.nodeSize := by
+  have := Coll.setList_nsOf c _ l l' hl hns s
+  unfold Coll.nsOf at this
+  rw [this, hl]
+  rfl
+
+/-- a run is taken from bucket `listIndex size` of `c` (whose bucket key is that of `c0`): the ledger gets its cells -/
+theorem CInv.takeRun {arr arrLen : Nat} {c0 c : Coll} {live : List (Nat × Nat)} (h : CInv arr arrLen c live) (hx : CExt c0 c)
+    {count size a : Nat} {l1 l2 : AnyList} (hl1 : c.lists[c0.listIndex size]? = some l1)
+    (hal : l1.allocateBytes (mul64 count size) = some (l2, some a)) :
+    CInv arr arrLen (c.setList (c0.listIndex size) l2)
+      (ledgerArr (c.setList (c0.listIndex size) l2) live count size (.ok a)) := by
+  rw [← hx.listIndex size] at hl1 ⊢
+  obtain ⟨_, hS, hpos⟩ := h.lists _ l1 hl1
+  obtain ⟨_, _, _, _, hsame, _⟩ := AnyList.allocateBytes_spec hS hpos hal
+  have := h.popRun hl1 hal
+  unfold ledgerArr arrCells
+  simp only
+  rw [Coll.nsOf_setList_self c hl1 hsame.ns]
+  exact this
+
+theorem Coll.defCapacity_lt {arr arrLen : Nat} {c : Coll} {live : List (Nat × Nat)} (h : CInv arr arrLen c live) {dc0 : Nat}
+    (hdc0 : c.defCapacity = some dc0) (l : AnyList) : growCapacity l 64 dc0 < 2 ^ 64 := by
+  obtain ⟨b0, rest, hu, hbe, t1, t2, t3, t4⟩ := h.topFacts
+  apply growCapacity_lt
+  unfold Coll.defCapacity Arena.currentBlock at hdc0
+  rw [hu] at hdc0
+  simp only [List.head?_cons, Option.map_some] at hdc0
+  split at hdc0
+  · cases hdc0
+  · cases hdc0
+    have : (b0.usable.size / c.lists.length) ≤ b0.usable.size := Nat.div_le_self _ _
+    unfold Blk.usable at this ⊢
+    simp only at this ⊢
+    omega
+
+theorem mul64_lt (a b : Nat) : mul64 a b < 2 ^ 64 := by unfold mul64; exact BitVec.isLt _
+
+theorem ledgerArr_not_ok (st : Coll) (live : List (Nat × Nat)) (count size : Nat) {out : Out} (h : ∀ a, out ≠ .ok a) :
+    ledgerArr st live count size out = live := by
+  cases out with
+  | ok a => exact absurd rfl (h a)
+  | _ => rfl
+
+/-- **`allocate_array(count, size)`**: the invariant is kept in every outcome -/
+theorem Coll.allocateArray_inv (cfg : Cfg) {arr arrLen : Nat} {c : Coll} {live : List (Nat × Nat)} (h : CInv arr arrLen c live)
+    (hf : cfg.fence ≤ 2 ^ 32) (count size : Nat) (env : List (Option Nat))
+    (hb : BlocksOk (c.allocateArray cfg count size env).st.arena.used) :
+    CInv arr arrLen (c.allocateArray cfg count size env).st
+      (ledgerArr (c.allocateArray cfg count size env).st live count size (c.allocateArray cfg count size env).out) := by
+  unfold Coll.allocateArray at hb ⊢
+  split
+  · exact h
+  · rename_i hsz
+    simp only [hsz, if_false] at hb
+    cases hl : c.lists[c.listIndex size]? with
+    | none => simp only [hl]; exact h
+    | some l =>
+    cases hdc0 : c.defCapacity with
+    | none => simp only [hl, hdc0]; exact h
+    | some dc0 =>
+      simp only [hl, hdc0] at hb ⊢
+      have hdc := Coll.defCapacity_lt h hdc0 l
+      -- the first attempt
+      cases hfirst : (if l.empty = true then some (l, none) else l.allocateBytes (mul64 count size)) with
+      | none => simp only [hfirst]; exact h
+      | some r0 =>
+        obtain ⟨l', oa⟩ := r0
+        cases oa with
+        | some a =>
+          simp only [hfirst] at hb ⊢
+          have hal : l.allocateBytes (mul64 count size) = some (l', some a) := by
+            by_cases hemp : l.empty
+            · simp [hemp] at hfirst
+            · simpa [hemp] using hfirst
+          exact h.takeRun (CExt.refl c) hl hal
+        | none =>
+          simp only [hfirst] at hb ⊢
+          -- reserve the default capacity
+          cases hres : c.reserve cfg (c.listIndex size) (growCapacity l 64 dc0) env with
+          | mk r om =>
+            have hx1 : CExt c r.st := by have := Coll.reserve_ext cfg c (c.listIndex size) (growCapacity l 64 dc0) env; rw [hres] at this; exact this
+            have key1 : BlocksOk r.st.arena.used → CInv arr arrLen r.st live ∧ ∀ mem, om = some mem → RegionFree arr arrLen r.st live mem (growCapacity l 64 dc0) := by
+              intro hbr
+              have := h.reserve_spec cfg hf (c.listIndex size) hdc env (by rw [hres]; exact hbr)
+              rw [hres] at this
+              exact this
+            have hne1 : ∀ a, r.out ≠ .ok a := by
+              intro a
+              have := Coll.reserve_ne_ok cfg c (c.listIndex size) (growCapacity l 64 dc0) env a
+              rw [hres] at this; exact this
+            simp only [hres] at hb ⊢
+            cases om with
+            | none =>
+              simp only at hb ⊢
+              rw [ledgerArr_not_ok _ _ _ _ hne1]
+              exact (key1 hb).1
+            | some mem =>
+              simp only at hb ⊢
+              cases hl1 : r.st.lists[c.listIndex size]? with
+              | none => simp only [hl1] at hb ⊢; exact (key1 hb).1
+              | some l1 =>
+                simp only [hl1] at hb ⊢
+                cases hins : l1.insert cfg mem (growCapacity l 64 dc0) with
+                | handler k => simp only [hins] at hb ⊢; exact (key1 hb).1
+                | crash => simp only [hins] at hb ⊢; exact (key1 hb).1
+                | ok l2 =>
+                  simp only [hins] at hb ⊢
+                  -- second attempt on c2
+                  have hc2 : BlocksOk r.st.arena.used → CInv arr arrLen (r.st.setList (c.listIndex size) l2) live := by
+                    intro hbr
+                    obtain ⟨k1, k2⟩ := key1 hbr
+                    exact k1.insertFree cfg hl1 (k2 mem rfl) hins
+                  have hx2 : CExt c (r.st.setList (c.listIndex size) l2) := hx1.trans (CExt.setList _ _ _)
+                  have hl2 : (r.st.setList (c.listIndex size) l2).lists[c.listIndex size]? = some l2 := by
+                    unfold Coll.setList
+                    have hlt : c.listIndex size < r.st.lists.length := by
+                      rcases Nat.lt_or_ge (c.listIndex size) r.st.lists.length with h' | h'
+                      · exact h'
+                      · rw [List.getElem?_eq_none h'] at hl1; cases hl1
+                    simp [hlt]
+                  cases hal2 : l2.allocateBytes (mul64 count size) with
+                  | none => simp only [hal2] at hb ⊢; exact hc2 hb
+                  | some r2 =>
+                    obtain ⟨l3, oa2⟩ := r2
+                    cases oa2 with
+                    | some a =>
+                      simp only [hal2] at hb ⊢
+                      exact (hc2 hb).takeRun hx2 hl2 hal2
+                    | none =>
+                      simp only [hal2] at hb ⊢
+                      -- the array gets its own reservation
+                      by_cases hfit : mul64 (ceilNodes (mul64 count size) l2.nodeSize) l2.nodeSize >
+                          add64 (sub64 (r.st.setList (c.listIndex size) l2).nextCapacity l2.alignment) 1
+                      · simp only [hfit, if_true] at hb ⊢
+                        exact hc2 hb
+                      · simp only [hfit, if_false] at hb ⊢
+                        generalize hasz : mul64 (ceilNodes (mul64 count size) l2.nodeSize) l2.nodeSize = asz at hb ⊢
+                        generalize henv' : List.drop (List.filter (fun e => match e with | UpEv.alloc _ _ _ => true | _ => false) r.ev).length env = env' at hb ⊢
+                        cases hres2 : (r.st.setList (c.listIndex size) l2).reserve cfg (c.listIndex size) asz env' with
+                        | mk r2 om2 =>
+                          have hx3 : CExt (r.st.setList (c.listIndex size) l2) r2.st := by
+                            have := Coll.reserve_ext cfg (r.st.setList (c.listIndex size) l2) (c.listIndex size) asz env'
+                            rw [hres2] at this; exact this
+                          have hbr : BlocksOk r2.st.arena.used → BlocksOk r.st.arena.used := fun hb2 => hb2.suffix hx3.used
+                          have key2 : BlocksOk r2.st.arena.used → CInv arr arrLen r2.st live ∧ ∀ mem, om2 = some mem → RegionFree arr arrLen r2.st live mem asz := by
+                            intro hb2
+                            have := (hc2 (hbr hb2)).reserve_spec cfg hf (c.listIndex size) (cap := asz) (by rw [← hasz]; exact mul64_lt _ _) env'
+                              (by rw [hres2]; exact hb2)
+                            rw [hres2] at this
+                            exact this
+                          have hne2 : ∀ a, r2.out ≠ .ok a := by
+                            intro a
+                            have := Coll.reserve_ne_ok cfg (r.st.setList (c.listIndex size) l2) (c.listIndex size) asz env' a
+                            rw [hres2] at this; exact this
+                          simp only [hres2] at hb ⊢
+                          cases om2 with
+                          | none =>
+                            simp only at hb ⊢
+                            rw [ledgerArr_not_ok _ _ _ _ hne2]
+                            exact (key2 hb).1
+                          | some mem2 =>
+                            simp only at hb ⊢
+                            cases hl4 : r2.st.lists[c.listIndex size]? with
+                            | none => simp only [hl4] at hb ⊢; exact (key2 hb).1
+                            | some l4 =>
+                              simp only [hl4] at hb ⊢
+                              cases hins2 : l4.insert cfg mem2 asz with
+                              | handler k => simp only [hins2] at hb ⊢; exact (key2 hb).1
+                              | crash => simp only [hins2] at hb ⊢; exact (key2 hb).1
+                              | ok l5 =>
+                                simp only [hins2] at hb ⊢
+                                have hx5 : CExt c (r2.st.setList (c.listIndex size) l5) := (hx2.trans hx3).trans (CExt.setList _ _ _)
+                                have hc5 : BlocksOk r2.st.arena.used → CInv arr arrLen (r2.st.setList (c.listIndex size) l5) live := by
+                                  intro hb2
+                                  obtain ⟨k1, k2⟩ := key2 hb2
+                                  exact k1.insertFree cfg hl4 (k2 mem2 rfl) hins2
+                                have hl5 : (r2.st.setList (c.listIndex size) l5).lists[c.listIndex size]? = some l5 := by
+                                  unfold Coll.setList
+                                  have hlt : c.listIndex size < r2.st.lists.length := by
+                                    rcases Nat.lt_or_ge (c.listIndex size) r2.st.lists.length with h' | h'
+                                    · exact h'
+                                    · rw [List.getElem?_eq_none h'] at hl4; cases hl4
+                                  simp [hlt]
+                                cases hal5 : l5.allocateBytes (mul64 count size) with
+                                | none => simp only [hal5] at hb ⊢; exact hc5 hb
+                                | some r5 =>
+                                  obtain ⟨l6, oa5⟩ := r5
+                                  cases oa5 with
+                                  | none => simp only [hal5] at hb ⊢; exact hc5 hb
+                                  | some a =>
+                                    simp only [hal5] at hb ⊢
+                                    have := (hc5 hb).takeRun hx5 hl5 hal5
+                                    rwa [Coll.setList_setList] at this
+
+/-- **`try_allocate_array(count, size)`** -/
+theorem Coll.tryAllocateArray_inv (cfg : Cfg) {arr arrLen : Nat} {c : Coll} {live : List (Nat × Nat)} (h : CInv arr arrLen c live)
+    (hf : cfg.fence ≤ 2 ^ 32) (count size : Nat) :
+    CInv arr arrLen (c.tryAllocateArray cfg count size).st
+      (ledgerArr (c.tryAllocateArray cfg count size).st live count size (c.tryAllocateArray cfg count size).out) := by
+  unfold Coll.tryAllocateArray
+  split
+  · exact h
+  · cases hl : c.lists[c.listIndex size]? with
+    | none => simp only [hl]; exact h
+    | some l =>
+    cases hdc0 : c.defCapacity with
+    | none => simp only [hl, hdc0]; exact h
+    | some dc0 =>
+      simp only [hl, hdc0]
+      have hdc := Coll.defCapacity_lt h hdc0 l
+      have key : ∀ c1, CInv arr arrLen c1 live → CExt c c1 →
+          CInv arr arrLen
+            (match c1.lists[c.listIndex size]? with
+              | some l1 => if l1.empty then (⟨c1, .null, []⟩ : PRes Coll)
+                  else (match l1.allocateBytes (mul64 count size) with
+                    | some (l2, some a) => ⟨c1.setList (c.listIndex size) l2, .ok a, []⟩
+                    | some (_, none) => ⟨c1, .null, []⟩
+                    | none => ⟨c1, .crash, []⟩)
+              | none => ⟨c1, .crash, []⟩).st
+            (ledgerArr
+              (match c1.lists[c.listIndex size]? with
+              | some l1 => if l1.empty then (⟨c1, .null, []⟩ : PRes Coll)
+                  else (match l1.allocateBytes (mul64 count size) with
+                    | some (l2, some a) => ⟨c1.setList (c.listIndex size) l2, .ok a, []⟩
+                    | some (_, none) => ⟨c1, .null, []⟩
+                    | none => ⟨c1, .crash, []⟩)
+              | none => ⟨c1, .crash, []⟩).st live count size
+              (match c1.lists[c.listIndex size]? with
+              | some l1 => if l1.empty then (⟨c1, .null, []⟩ : PRes Coll)
+                  else (match l1.allocateBytes (mul64 count size) with
+                    | some (l2, some a) => ⟨c1.setList (c.listIndex size) l2, .ok a, []⟩
+                    | some (_, none) => ⟨c1, .null, []⟩
+                    | none => ⟨c1, .crash, []⟩)
+              | none => ⟨c1, .crash, []⟩).out) := by
+        intro c1 h1 hx
+        cases hl1 : c1.lists[c.listIndex size]? with
+        | none => exact h1
+        | some l1 =>
+          simp only
+          split
+          · exact h1
+          · cases hal : l1.allocateBytes (mul64 count size) with
+            | none => exact h1
+            | some r =>
+              obtain ⟨l2, oa⟩ := r
+              cases oa with
+              | none => exact h1
+              | some a => exact h1.takeRun hx hl1 hal
+      by_cases hemp : l.empty
+      · simp only [hemp, if_true]
+        cases htr : c.tryReserve cfg (c.listIndex size) (growCapacity l 64 dc0) with
+        | none => exact h
+        | some c1 => exact key c1 (h.tryReserve_spec cfg hf hdc htr) (Coll.tryReserve_ext cfg c _ _ htr).1
+      · simp only [hemp, Bool.false_eq_true, if_false]
+        exact key c h (CExt.refl c)
+
+/-! ### histories with node and array operations -/
+
+theorem Coll.takeRun_ext (c : Coll) (i : Nat) (l : AnyList) : CExt c (c.setList i l) := CExt.setList _ _ _
+
+theorem Coll.reserve_ext' {cfg : Cfg} {c : Coll} {i cap : Nat} {env : List (Option Nat)} {r : PRes Coll} {om : Option Nat}
+    (h : c.reserve cfg i cap env = (r, om)) : CExt c r.st := by
+  have := Coll.reserve_ext cfg c i cap env
+  rw [h] at this
+  exact this
+
+theorem Coll.allocateArray_ext (cfg : Cfg) (c : Coll) (count size : Nat) (env : List (Option Nat)) :
+    CExt c (c.allocateArray cfg count size env).st := by
+  unfold Coll.allocateArray
+  split
+  · exact CExt.refl _
+  · cases hl : c.lists[c.listIndex size]? with
+    | none => simp only [hl]; exact CExt.refl _
+    | some l =>
+    cases hdc0 : c.defCapacity with
+    | none => simp only [hl, hdc0]; exact CExt.refl _
+    | some dc0 =>
+      simp only [hl, hdc0]
+      split
+      · exact CExt.refl _
+      · exact CExt.setList _ _ _
+      · split
+        · rename_i r hres; exact Coll.reserve_ext' hres
+        · rename_i r mem hres
+          have hx1 := Coll.reserve_ext' hres
+          split
+          · exact hx1
+          · split
+            · exact hx1
+            · exact hx1
+            · rename_i l1 _ l2 _
+              have hx2 : CExt c (r.st.setList (c.listIndex size) l2) := hx1.trans (CExt.setList _ _ _)
+              split
+              · exact hx2
+              · exact hx2.trans (CExt.setList _ _ _)
+              · split
+                · exact hx2
+                · split
+                  · rename_i r2 hres2
+                    have hx3 : CExt (r.st.setList (c.listIndex size) l2) r2.st := Coll.reserve_ext' hres2
+                    exact hx2.trans hx3
+                  · rename_i r2 mem2 hres2
+                    have hx3 := hx2.trans (Coll.reserve_ext' hres2)
+                    split
+                    · exact hx3
+                    · split
+                      · exact hx3
+                      · exact hx3
+                      · split
+                        · exact hx3.trans (CExt.setList _ _ _)
+                        · exact hx3.trans (CExt.setList _ _ _)
+
+theorem Coll.tryAllocateArray_ext (cfg : Cfg) (c : Coll) (count size : Nat) : CExt c (c.tryAllocateArray cfg count size).st := by
+  unfold Coll.tryAllocateArray
+  split
+  · exact CExt.refl _
+  · cases hl : c.lists[c.listIndex size]? with
+    | none => simp only [hl]; exact CExt.refl _
+    | some l =>
+    cases hdc0 : c.defCapacity with
+    | none => simp only [hl, hdc0]; exact CExt.refl _
+    | some dc0 =>
+      simp only [hl, hdc0]
+      have key : ∀ c1, CExt c c1 → CExt c
+            (match c1.lists[c.listIndex size]? with
+              | some l1 => if l1.empty then (⟨c1, .null, []⟩ : PRes Coll)
+                  else (match l1.allocateBytes (mul64 count size) with
+                    | some (l2, some a) => ⟨c1.setList (c.listIndex size) l2, .ok a, []⟩
+                    | some (_, none) => ⟨c1, .null, []⟩
+                    | none => ⟨c1, .crash, []⟩)
+              | none => ⟨c1, .crash, []⟩).st := by
+        intro c1 hx
+        split
+        · split
+          · exact hx
+          · split
+            · exact hx.trans (CExt.setList _ _ _)
+            · exact hx
+            · exact hx
+        · exact hx
+      by_cases hemp : l.empty
+      · simp only [hemp, if_true]
+        cases htr : c.tryReserve cfg (c.listIndex size) (growCapacity l 64 dc0) with
+        | none => exact CExt.refl _
+        | some c1 => exact key c1 (Coll.tryReserve_ext cfg c _ _ htr).1
+      · simp only [hemp, Bool.false_eq_true, if_false]
+        exact key c (CExt.refl c)
+
+theorem Coll.deallocateArray_ext (cfg : Cfg) (c : Coll) (a count size : Nat) : CExt c (c.deallocateArray cfg a count size).st := by
+  unfold Coll.deallocateArray
+  simp only
+  split
+  · exact CExt.refl _
+  · split
+    · exact CExt.setList _ _ _
+    · exact CExt.refl _
+    · exact CExt.refl _
+
+theorem GCollA.step_ext (cfg : Cfg) (e : EnvS) (g : GCollA) (k : Nat) (op : COpA) : CExt g.c (g.step cfg e k op).1.c := by
+  unfold GCollA.step
+  cases op with
+  | node op => exact GColl.step_ext cfg e ⟨g.c, g.live⟩ k op
+  | allocArray count size => exact Coll.allocateArray_ext cfg g.c count size _
+  | tryAllocArray count size => exact Coll.tryAllocateArray_ext cfg g.c count size
+  | deallocArray j =>
+    simp only
+    split
+    · exact CExt.refl _
+    · split
+      · exact CExt.refl _
+      · split
+        · exact Coll.deallocateArray_ext cfg g.c _ _ _
+        · exact CExt.refl _
+
+theorem GCollA.run_ext (cfg : Cfg) (e : EnvS) (ops : List COpA) : ∀ (g : GCollA) (k : Nat), CExt g.c (g.run cfg e k ops).1.c := by
+  induction ops with
+  | nil => intro g k; exact CExt.refl _
+  | cons op ops ih => intro g k; exact (GCollA.step_ext cfg e g k op).trans (ih _ _)
+
+theorem GCollA.step_inv (cfg : Cfg) (e : EnvS) {arr arrLen : Nat} (g : GCollA) (k : Nat) (op : COpA)
+    (h : CInv arr arrLen g.c g.live) (hf : cfg.fence ≤ 2 ^ 32) (hb : BlocksOk (g.step cfg e k op).1.c.arena.used) :
+    CInv arr arrLen (g.step cfg e k op).1.c (g.step cfg e k op).1.live := by
+  unfold GCollA.step at hb ⊢
+  cases op with
+  | node op => exact GColl.step_inv cfg e ⟨g.c, g.live⟩ k op h hf hb
+  | allocArray count size => exact Coll.allocateArray_inv cfg h hf count size _ hb
+  | tryAllocArray count size => exact Coll.tryAllocateArray_inv cfg h hf count size
+  | deallocArray j =>
+    simp only at hb ⊢
+    cases hj : g.arrs[j]? with
+    | none => exact h
+    | some acs =>
+      obtain ⟨a, count, size⟩ := acs
+      simp only
+      cases hl : g.c.lists[g.c.listIndex size]? with
+      | none => exact h
+      | some l =>
+        simp only
+        split
+        · rename_i hall
+          have hsub : ∀ x ∈ arrEntries l.nodeSize a size (arrCells l.nodeSize count size), x ∈ g.live := by
+            intro x hx
+            have := List.all_eq_true.mp hall x hx
+            simpa using this
+          exact (Coll.deallocateArray_inv cfg h hl hsub).2.2
+        · exact h
+
+/-- **Preservation over a history of node and array operations** on a collection over intrusive lists -/
+theorem GCollA.run_inv (cfg : Cfg) (e : EnvS) {arr arrLen : Nat} (hf : cfg.fence ≤ 2 ^ 32) (ops : List COpA) :
+    ∀ (g : GCollA) (k : Nat), CInv arr arrLen g.c g.live → BlocksOk (g.run cfg e k ops).1.c.arena.used →
+      CInv arr arrLen (g.run cfg e k ops).1.c (g.run cfg e k ops).1.live := by
+  induction ops with
+  | nil => intro g k h _; exact h
+  | cons op ops ih =>
+    intro g k h hb
+    have hstep := GCollA.step_inv cfg e g k op h hf (hb.suffix (GCollA.run_ext cfg e ops _ _).used)
+    exact ih _ _ hstep hb
 
 end MemVerif.Model
